@@ -122,7 +122,9 @@ def _build(ctx, i):
         for k in d["kids"]:
             if k not in ctx.objs:
                 _build(ctx, k)
-        obj = RecDoDoer(doers=[ctx.objs[k] for k in d["kids"]], always=d["always"], tock=d["tock"])
+        # .always is the attribute; an explicit per-run always=... injected through .opts overrides it
+        okw = {"opts": {"always": d["opt_always"]}} if d.get("opt_always") is not None else {}
+        obj = RecDoDoer(doers=[ctx.objs[k] for k in d["kids"]], always=d["always"], tock=d["tock"], **okw)
         ctx.objs[i] = obj
         return obj
     script = d["script"]
@@ -382,7 +384,7 @@ def _step(st):
 
 def _def(i, d):
     if d["kind"] == "nest":
-        body = f"(FNest {_fl(d['tock'])} {coq_bool(d['always'])} {coq_list([coq_N(k) for k in d['kids']], 'N')})"
+        body = f"(FNest {_fl(d['tock'])} {coq_bool(eff_always(d))} {coq_list([coq_N(k) for k in d['kids']], 'N')})"
     else:
         k = {"func": "KFunc", "bound": "KFunc", "doer": "KDoer", "doergen": "KDoerGen"}[d["kind"]]
         body = f"(FLeaf {k} {coq_list([_step(s) for s in d['script']], 'fstep float')})"
@@ -772,6 +774,24 @@ def add_reruns(rng, p, n=None):
     return p
 
 
+def eff_always(d):
+    """The always a DoDoer runs with: the per-run override injected through .opts when given, else its .always."""
+    return d["opt_always"] if d.get("opt_always") is not None else d["always"]
+
+
+def add_opt_always(rng, p):
+    """Give some DoDoers an explicit per-run always=... (through .opts) that differs from their attribute."""
+    for d in p["defs"].values():
+        if d["kind"] == "nest" and rng.random() < 0.2:
+            if d["always"]:
+                d["opt_always"] = False          # attribute True, run says False: completes with its last doer
+            elif p["limit"]:
+                d["opt_always"] = True           # attribute False, run says True: keeps running until the limit
+            else:
+                d["always"], d["opt_always"] = True, False
+    return p
+
+
 def gen_broad(rng, n):
     """A broad stream shared by all scheduler drivers: static and dynamic programs, with and without faults,
     run with do() or ado(), optionally several runs on one Doist and runs of the same doers under new Doists."""
@@ -785,13 +805,14 @@ def gen_broad(rng, n):
             p = gen_dynamic(rng, faults=(rng.random() < 0.4), always_p=0.5, tocks=rng.choice(["dyadic", "any"]))
         if rng.random() < 0.3:
             p["mode"] = "ado"
+        add_opt_always(rng, p)
         if rng.random() < 0.2:
             p["doers_as"] = "tuple"
         r = rng.random()
         if r < 0.2:
             add_reruns(rng, p)
         elif r < 0.4:
-            has_always = any(d["kind"] == "nest" and d["always"] for d in p["defs"].values())
+            has_always = any(d["kind"] == "nest" and eff_always(d) for d in p["defs"].values())
             p["fresh"] = [{"limit": (p["limit"] or 4 * p["tock"]) if has_always or rng.random() < 0.5 else None,
                            "tyme": rng.choice([0.0, 0.0, 0.5, 20.0])}
                           for _ in range(rng.choice([1, 1, 2]))]
